@@ -85,6 +85,8 @@ type Case struct {
 	ProfGin  string    `json:"prof_gin,omitempty"`
 	// the five profile table names of the context: series gin, series gin dist, series, series dist, profiles dist
 	ProfTables []string `json:"prof_tables,omitempty"`
+	// TraceQL cases: the context of every execution as C11's model takes it (tqcalls.go)
+	TqCalls []TqCall `json:"tq_calls,omitempty"`
 	Err    string   `json:"err,omitempty"` // parse | plan
 }
 
@@ -510,6 +512,9 @@ func run(c *Case) {
 		return
 	}
 	c.ProfSels = pl0.sels
+	if c.Lang == "traceql" {
+		c.TqCalls = tqCalls(c)
+	}
 	c.Fresh = runFresh(c)
 	c.Tail = runTail(c)
 	c.Reuse = runReuse(c)
